@@ -373,6 +373,24 @@ fn main() {
             }
         }
     }
+    // variable-label lists of length 3 (non-adjacent repeats included)
+    for a in names {
+        for b in names {
+            for c3 in names {
+                for &c in &CTORS {
+                    if !(c.is_vec() || c == Ctor::Desc) {
+                        continue;
+                    }
+                    for cl in [None, Some("b")] {
+                        let mut spec = sp("m");
+                        spec.vars = vec![a.to_string(), b.to_string(), c3.to_string()];
+                        spec.consts = cl.iter().map(|k| (k.to_string(), "v".to_string())).collect();
+                        run.ctor(c, &spec, "clash3");
+                    }
+                }
+            }
+        }
+    }
     // (e) registry prefix and common labels
     for s in &s3 {
         run.registry(Some(s), &[], Ctor::Counter, &sp("m"), "prefix");
